@@ -3,6 +3,7 @@ package balancer
 import (
 	"context"
 	"fmt"
+	"sync/atomic"
 
 	"github.com/thushan/olla/internal/core/domain"
 	"github.com/thushan/olla/internal/core/ports"
@@ -11,6 +12,7 @@ import (
 // LeastConnectionsSelector implements a load balancer that selects the endpoint with the least number of active connections.
 type LeastConnectionsSelector struct {
 	statsCollector ports.StatsCollector
+	next           atomic.Uint64 // where the search for the minimum starts: rotates ties
 }
 
 func NewLeastConnectionsSelector(statsCollector ports.StatsCollector) *LeastConnectionsSelector {
@@ -42,11 +44,16 @@ func (l *LeastConnectionsSelector) Select(ctx context.Context, endpoints []*doma
 	// Get current connection counts from stats collector
 	connectionStats := l.statsCollector.GetConnectionStats()
 
-	// Find endpoint with a least number of connections
+	// Find endpoint with a least number of connections. Ties are the normal case (requests that
+	// do not overlap find every gauge at zero): they are broken in turn, starting one position
+	// further along the list on every selection, so that idle endpoints share sequential traffic
+	// instead of the first one in the list taking all of it.
 	var selected *domain.Endpoint
 	minConnections := int64(-1)
+	start := int((l.next.Add(1) - 1) % uint64(len(routable)))
 
-	for _, endpoint := range routable {
+	for i := range routable {
+		endpoint := routable[(start+i)%len(routable)]
 		connections := connectionStats[endpoint.URLString] // Will be 0 if not found
 
 		if minConnections == -1 || connections < minConnections {
